@@ -37,6 +37,8 @@ def plan(tier, seed):
             dd = d
             if tier == "quick" and d and name == "U2" and c04.sd_size(ch[0]) < 3:
                 dd = 0
+            if tier != "quick" and d == 2 and c04.sd_size(ch[0]) > 3:
+                dd = 1
             units.append((name, ch, tmode, dd, tier))
     units.sort(key=lambda u: -u[3])
     # synthetic-diagram harness for the end-node logic (bbmc/ctldag.py)
@@ -168,7 +170,7 @@ def run_unit(unit):
         try:
             with case_timeout(2200):
                 if depth:
-                    ex = Explorer(net, lambda n, s: full_ops(n, s), None, config=CONFIG, max_states=200)
+                    ex = Explorer(net, lambda n, s: full_ops(n, s), None, config=CONFIG, max_states=200 if depth < 2 else 60)
                     prefixes = ex.run(depth=depth)
                     res["states"] += len(ex.states)
                     res["transitions"] += ex.transitions
